@@ -19,7 +19,7 @@ use std::time::{Duration, Instant};
 
 const TIMEOUTS: [Option<u64>; 5] = [Some(0), Some(5), Some(40), Some(200), None];
 const TIMERS: [&str; 8] = ["none", "earlier", "equal", "later", "expired", "one-hour", "unrepresentable", "earlier-rearmed-from-unrepresentable"];
-const POPS: [&str; 18] = ["expired-timer-removed-before-any-dispatch", "armed-timer-rearmed-into-the-past-then-removed", "sync-channel-drained-exactly-at-its-bound", "rendezvous-channel-after-refused-try_send", "channel-1024-messages-delivered", "lifecycle-source-slow-before-sleep", "signals-interrupt-the-wait", "lifecycle-source-slow-before-sleep-and-signals", "self-removed-source-whose-slot-was-reused", "empty", "ping-live-handle", "ping-all-handles-gone", "channel-all-senders-gone", "empty-executor", "generic-level-not-ready", "generic-empty-interest-ready", "fired-oneshot-still-ready", "disabled-sources-with-pending-readiness"];
+const POPS: [&str; 21] = ["idle-callback-queued", "cancelled-idle-callback-queued", "adapter-waiting-for-readability-after-a-wait-for-writability", "expired-timer-removed-before-any-dispatch", "armed-timer-rearmed-into-the-past-then-removed", "sync-channel-drained-exactly-at-its-bound", "rendezvous-channel-after-refused-try_send", "channel-1024-messages-delivered", "lifecycle-source-slow-before-sleep", "signals-interrupt-the-wait", "lifecycle-source-slow-before-sleep-and-signals", "self-removed-source-whose-slot-was-reused", "empty", "ping-live-handle", "ping-all-handles-gone", "channel-all-senders-gone", "empty-executor", "generic-level-not-ready", "generic-empty-interest-ready", "fired-oneshot-still-ready", "disabled-sources-with-pending-readiness"];
 
 struct Cell_ {
     timeout: Option<u64>,
@@ -96,11 +96,27 @@ fn measure(c: &Cell_) -> Measured {
     let mut keep: Vec<Box<dyn std::any::Any>> = Vec::new();
     let mut keep_fds: Vec<OwnedFd> = Vec::new();
     // idle population: nothing of this may shorten or lengthen the wait
+    let mut keep_async: Vec<calloop::io::Async<'_, OwnedFd>> = Vec::new();
     let slow_hook = c.pop.starts_with("lifecycle-source-slow-before-sleep");
     let interrupted = c.pop.contains("signals");
     match c.pop {
         _ if slow_hook => {
             h.insert_source(SlowHook(Duration::from_millis(HOOK_MS)), |_, _, n| *n += 1).unwrap();
+        }
+        "adapter-waiting-for-readability-after-a-wait-for-writability" => {
+            // an Async adapter first waits for writability (granted by the warm-up dispatches), then for readability
+            // while its peer stays silent: only the read interest may be armed now
+            use std::future::Future;
+            let (a, b) = sysx::socket_pair();
+            let mut ad = h.adapt_io(a).expect("adapt_io");
+            let wk = futures::task::noop_waker();
+            let mut cx = std::task::Context::from_waker(&wk);
+            {
+                let mut f = Box::pin(ad.writable());
+                let _ = f.as_mut().poll(&mut cx);
+            }
+            keep_async.push(ad);
+            keep_fds.push(b);
         }
         "expired-timer-removed-before-any-dispatch" => {
             // the timer's deadline passes while the loop is not being dispatched; then it is removed: nothing of it may
@@ -252,6 +268,27 @@ fn measure(c: &Cell_) -> Measured {
     for _ in 0..warm_n {
         el.dispatch(Some(Duration::ZERO), &mut warm).expect("warm-up dispatch");
     }
+    // populations that are set up after the warm-up dispatches
+    let mut keep_idle = None;
+    match c.pop {
+        "idle-callback-queued" => {
+            // an idle callback is neither an event nor a wake-up: it runs after the wait, it does not shorten it
+            keep_idle = Some(h.insert_idle(|_| {}));
+        }
+        "cancelled-idle-callback-queued" => {
+            h.insert_idle(|_| {}).cancel();
+        }
+        "adapter-waiting-for-readability-after-a-wait-for-writability" => {
+            use std::future::Future;
+            let wk = futures::task::noop_waker();
+            let mut cx = std::task::Context::from_waker(&wk);
+            if let Some(ad) = keep_async.first_mut() {
+                let mut f = Box::pin(ad.readable());
+                let _ = f.as_mut().poll(&mut cx);
+            }
+        }
+        _ => {}
+    }
     let fired = Rc::new(Cell::new(false));
     let f2 = fired.clone();
     let to = c.timeout.map(Duration::from_millis);
@@ -398,6 +435,8 @@ fn measure(c: &Cell_) -> Measured {
     };
     drop(keep_ping);
     drop(keep_ping2);
+    drop(keep_idle);
+    drop(keep_async);
     drop(keep);
     drop(keep_fds);
     Measured {
